@@ -15,6 +15,7 @@ package main
 // SCHEMA = generic reflective dump: (st (Field V)...) | (p V) | nil | (l V...) | (s xUTF8) | (i N)
 
 import (
+	"os"
 	"bytes"
 	"encoding/json"
 	"fmt"
@@ -210,6 +211,39 @@ func dumpValue(v reflect.Value) sx {
 
 func dumpSchema(s avro.Schema) sx { return dumpValue(reflect.ValueOf(s)) }
 
+var (
+	prevMarshal     []byte
+	prevMarshalCopy string
+)
+
+// headerSchemaOutcome: the same text as the avro.schema entry of a container file header, read
+// through FileSchema; "err" or the schema dump
+func headerSchemaOutcome(text []byte) sx {
+	w := avro.NewWriteBuf(nil)
+	w.Write([]byte{'O', 'b', 'j', 1})
+	w.Varint(2)
+	for _, kv := range [][2][]byte{{[]byte("avro.schema"), text}, {[]byte("avro.codec"), []byte("null")}} {
+		w.Varint(int64(len(kv[0])))
+		w.Write(kv[0])
+		w.Varint(int64(len(kv[1])))
+		w.Write(kv[1])
+	}
+	w.Varint(0)
+	w.Write(make([]byte, 16))
+	f, err := os.CreateTemp("", "c14hdr*.avro")
+	if err != nil {
+		panic("harness: " + err.Error())
+	}
+	defer os.Remove(f.Name())
+	f.Write(w.Bytes())
+	f.Close()
+	s, err := avro.FileSchema(f.Name())
+	if err != nil {
+		return T("err")
+	}
+	return T("ok", dumpSchema(s))
+}
+
 func marshalOutcome(s avro.Schema) sx {
 	var out []byte
 	var err error
@@ -223,6 +257,13 @@ func marshalOutcome(s avro.Schema) sx {
 	if err != nil {
 		return T("merr")
 	}
+	// the bytes an earlier Marshal call returned belong to its caller (FileWriter keeps them): a later
+	// call must not change them
+	if prevMarshal != nil && string(prevMarshal) != prevMarshalCopy {
+		prevMarshal = nil
+		return T("maliased")
+	}
+	prevMarshal, prevMarshalCopy = out, string(out)
 	tree, ok := treeOfText(out)
 	if !ok {
 		return T("mnotjson", H(out))
@@ -249,8 +290,15 @@ func execC14(op string, a []sx) sx {
 			info = T("notjson")
 		}
 		s, err := avro.SchemaFromString(string(text))
+		hdr := protectSx(func() sx { return headerSchemaOutcome(text) })
 		if err != nil {
+			if hdr.tag() != "err" {
+				return T("res", info, T("hdr-mismatch", A("SchemaFromString-err"), hdr))
+			}
 			return T("res", info, T("err"))
+		}
+		if want := T("ok", dumpSchema(s)); hdr.String() != want.String() {
+			return T("res", info, T("hdr-mismatch", A("SchemaFromString-ok"), hdr))
 		}
 		return T("res", info, T("ok", dumpSchema(s), marshalOutcome(s)))
 	case "gen":
